@@ -140,7 +140,7 @@ pub fn shrink_cli_case(c: &CliCase) -> Vec<CliCase> {
     }
     if c.route.stdin || c.route.out_file || c.route.flag.is_some() {
         push(&|n| {
-            n.route = Route { stdin: false, ext: if n.format == Format::Json { "json".into() } else { "efg".into() }, flag: None, out_file: false }
+            n.route = Route { stdin: false, ext: if n.format == Format::Json { "json".into() } else { "efg".into() }, flag: None, out_file: false, stale_out: false }
         });
     }
     if c.opts.p != Some(1) {
@@ -264,6 +264,7 @@ pub fn result_bytes<'a>(route: &Route, out: &'a ProcOut) -> Result<&'a [u8], (St
 
 pub fn proc_metrics(m: &mut Metrics, out: &ProcOut) {
     m.add("processes", 1);
+    m.add("fault_output_path_preexisting_with_longer_content", out.stale_out as u64);
     if let Some(r) = &out.report {
         m.add("sched_steps", r["sched_steps"].as_u64().unwrap_or(0));
         m.add("sched_preemptions", r["sched_preemptions"].as_u64().unwrap_or(0));
@@ -334,6 +335,23 @@ impl Prop for CliFaithful {
         }
         if w.names.iter().any(|n| n.iter().any(|(a, b)| a != b)) {
             m.add("probe_unnamed_gambit_infosets", 1);
+        }
+        if case.format == Format::Gambit {
+            // interior nodes carrying an outcome: payoffs written at the node / by number only
+            let text = String::from_utf8_lossy(&w.bytes);
+            let (mut inline, mut by_number) = (0u64, 0u64);
+            for l in text.lines().filter(|l| l.starts_with("p ") || l.starts_with("c ")) {
+                if let Some(i) = l.rfind('}') {
+                    let tail = l[i + 1..].trim();
+                    if tail.is_empty() {
+                        inline += 1;
+                    } else if tail != "0" {
+                        by_number += 1;
+                    }
+                }
+            }
+            m.add("probe_gambit_interior_payoffs_files", (inline + by_number > 0) as u64);
+            m.add("probe_gambit_interior_outcome_by_number_only_files", (by_number > 0) as u64);
         }
         if out.status != Some(0) {
             let first = out.stderr.lines().find(|l| l.contains("panicked") || l.contains("error")).unwrap_or(out.stderr.lines().next().unwrap_or("")).to_string();
